@@ -53,6 +53,19 @@ type Slice struct {
 	Len  dom.BV
 	// LoV is a symbolic lower bound of a window onto the symbolic slice Sym.
 	LoV dom.BV
+	// Rope, when non-nil, makes the slice an immutable concatenation of
+	// segments (the result of append); Len is the total length.
+	Rope []Seg
+}
+
+// Seg is one segment of a rope: known bytes, a window of a symbolic slice, or
+// a byte repeated a (possibly symbolic) number of times.
+type Seg struct {
+	Bytes []dom.BV
+	Sym   string
+	Lo    int
+	Len   dom.BV // of a Sym or Fill segment
+	Fill  dom.BV // the repeated element of a Fill segment (nil otherwise)
 }
 
 // RangeIter is the iterator of a range over a map.
@@ -266,8 +279,12 @@ func MuxValue(c *dom.Ctx, p bdd.Node, a, b Value) Value {
 			return &Map{Sym: x.Sym, Nil: c.M.Ite(p, x.Nil, y.Nil)}
 		}
 	case *Slice:
-		if y, ok := b.(*Slice); ok && x.Sym == y.Sym && x.Root == y.Root && x.Path == y.Path && x.Lo == y.Lo && x.LoV == nil && y.LoV == nil && x.Nil == y.Nil && len(x.Len) == len(y.Len) {
+		if y, ok := b.(*Slice); ok && x.Rope == nil && y.Rope == nil && x.Sym == y.Sym && x.Root == y.Root && x.Path == y.Path && x.Lo == y.Lo && x.LoV == nil && y.LoV == nil && x.Nil == y.Nil && len(x.Len) == len(y.Len) {
 			return &Slice{Sym: x.Sym, Root: x.Root, Path: x.Path, Lo: x.Lo, Nil: x.Nil, Len: c.Mux(p, x.Len, y.Len)}
+		}
+	case *Str:
+		if y, ok := b.(*Str); ok && x.Const == nil && y.Const == nil && x.Sym == y.Sym && len(x.Len) == len(y.Len) {
+			return &Str{Sym: x.Sym, Len: c.Mux(p, x.Len, y.Len)}
 		}
 	}
 	return &MuxV{P: p, A: a, B: b}
